@@ -600,7 +600,13 @@ func (e *Env) evalCall(n *ast.CallExpr) TV {
 	case "lenOf":
 		return TV{x.reflLen(asTerm(arg(0).V)), tInt}
 	case "isJSON":
-		return TV{x.isJSON(asTerm(arg(0).V)), tBool}
+		a := arg(0)
+		av := asTerm(a.V)
+		if av.Sort != "Val" {
+			// a statically typed value (e.g. map[string]interface{}): the JSON-ness of the value it boxes to
+			av = x.makeIface(e.st, a.V, a.T)
+		}
+		return TV{x.isJSON(av), tBool}
 	case "pooltag":
 		return TV{tt.UF("pooltag$", "Int", asTerm(arg(0).V)), tInt}
 	case "tidof":
